@@ -159,12 +159,13 @@ func build(tier string) []*vkit.Scenario {
 		{qcfg{f: 2, writers: []string{"gg"}, qmax: 1, closeBy: "close"}, 1, 2},
 		{qcfg{f: 2, writers: []string{"g"}, closeBy: "none", inbound: 1, echo: true}, 1, 2},
 		// two / three concurrent callers of the public Conn.HandleRead (Upgrade's own + threads)
-		{qcfg{f: 2, writers: []string{"s"}, closeBy: "none", inbound: 2, readers: 1}, 2, 3},
-		{qcfg{f: 2, writers: []string{"s"}, closeBy: "none", inbound: 2, readers: 2}, 2, 2},
-		{qcfg{f: 2, writers: []string{"s"}, closeBy: "eof", inbound: 2, readers: 1}, 2, 2},
-		{qcfg{f: 2, writers: []string{"s"}, closeBy: "none", inbound: 2, early: true, readers: 1}, 2, 3},
-		{qcfg{f: 2, writers: []string{"m"}, closeBy: "none", inbound: 2, echo: true, readers: 1}, 1, 2},
-		{qcfg{f: 2, direct: true, writers: []string{"m"}, closeBy: "none", inbound: 2, readers: 1}, 2, 3},
+		{qcfg{f: 2, closeBy: "none", inbound: 2, readers: 1}, 2, 3},
+		{qcfg{f: 2, closeBy: "none", inbound: 2, early: true, readers: 1}, 2, 3},
+		{qcfg{f: 2, closeBy: "none", inbound: 2, readers: 2}, 1, 2},
+		{qcfg{f: 2, closeBy: "eof", inbound: 2, readers: 1}, 1, 2},
+		{qcfg{f: 2, writers: []string{"s"}, closeBy: "none", inbound: 2, readers: 1}, 1, 2},
+		{qcfg{f: 2, closeBy: "none", inbound: 2, echo: true, readers: 1}, 1, 2},
+		{qcfg{f: 2, direct: true, writers: []string{"m"}, closeBy: "none", inbound: 2, readers: 1}, 1, 2},
 		// the same Upgrade path without the send queue (BlockingModAsyncWrite=false)
 		{qcfg{f: 2, direct: true, writers: []string{"m", "m"}, closeBy: "none"}, 2, 3},
 		{qcfg{f: 2, direct: true, writers: []string{"m", "m"}, closeBy: "eof"}, 2, 3},
@@ -182,6 +183,11 @@ func build(tier string) []*vkit.Scenario {
 			nt = func(m map[string]int) bool {
 				return m["writeframe_calls_accepted"] > 0 && (!bounded || m["writeframe_calls_refused_queue_full"] > 0) &&
 					(!after || m["writeframe_followup_accepted"] > 0)
+			}
+		}
+		if q.readers > 0 {
+			nt = func(m map[string]int) bool {
+				return m["handleread_callers_turned_away"] > 0 && m["messages_delivered"] > 0
 			}
 		}
 		add(q.name(), queuedBody(q), q.p, nt)
